@@ -449,6 +449,11 @@ func runC21(r *core.R) {
 			verr := api.Validate(bytes.NewReader(out), c)
 			if verr != nil {
 				key := "output-invalid:" + j.op.name
+				if strings.Contains(j.in.name, "dangling-free-ref") {
+					// separate root cause (reuse of a free object number that is still referenced): own key,
+					// so that any other invalid output of the same operation is still reported
+					key += ":input-references-a-free-object"
+				}
 				if r.Want(key) {
 					r.Violation(key, fmt.Sprintf("%s variant %d on %s succeeded but output %d does not validate: %v", j.op.name, j.v, j.in.name, oi+1, verr), rep)
 				}
